@@ -38,6 +38,6 @@ if __name__ == "__main__":
     i = s.index(head)
     j = s.index("\n\n", i + len(head))
     s = s[:i] + head + "\n".join(r) + s[j:]
-    s = re.sub(r"(### 10\.8 Seeded changes: detection table \(written by )`[^`]*`, \d+/\d+", r"\1`harness/sweep_seeds.sh` + `harness/seedtable.py`, %d/%d" % (ndet, len(r)), s)
+    s = re.sub(r"(### 10\.8 Seeded changes: detection table \([^\n]*?)\d+/\d+ detected", r"\g<1>%d/%d detected" % (ndet, len(r)), s)
     open(p, "w").write(s)
     print(ndet, len(r))
